@@ -25,7 +25,7 @@ def build(mt):
     rec['has']['c05'] = True
     try:
         enc = wrec.Enc()
-        w = wrec.run_wave(getattr(wave_sim, mt['cls']), c, d, mt['lanes'], mt['caps'], mt['inw'], reuse=mt['wreuse'], strip=mt['wstrip'], via_s=True, warmup=mt.get('warm'))
+        w = wrec.run_wave(getattr(wave_sim, mt['cls']), c, d, mt['lanes'], mt['caps'], mt['inw'], reuse=mt['wreuse'], strip=mt['wstrip'], via_s=True, warmup=mt.get('warm'), T=mt.get('T'))
         rec.update(wrec.observe(w, c, mt['lanes'], enc, lines=False))
         # the same stimulus as 8-valued codes: 0, 1, R (0->1), F (1->0)
         codes = [[{(0, 0): 0, (1, 1): 3, (0, 1): 5, (1, 0): 6}[(1 if im[0] == -wrec.INF else 0, (len(im) - 1) % 2)] for im in row] for row in mt['inw']]
@@ -51,9 +51,11 @@ def make(ck, rnd, n):
                         d[:, l.index] = 0
         inw = [[wrec.stim_image(rnd.randint(0, 1), rnd.randint(0, 12), rnd.randint(0, 1)) for _ in range(lanes)] for _ in c.s_nodes]
         warm = wrec.rand_inputs(rnd, c, lanes, multi=rnd.random() < 0.5, tmax=12) if rnd.random() < 0.5 else None
-        mt = dict(circuit=gen.circuit_state(c), lanes=lanes, delays=d.tolist(), caps=rnd.choice([4, 8, 16]), inw=inw, warm=warm,
+        # initial and final values do not depend on the time at which the outputs are sampled: c_to_s(time=T) with a finite T
+        T = rnd.choice([None, None, 0.5, 3.0, 7.5, 12.0])
+        mt = dict(T=T, circuit=gen.circuit_state(c), lanes=lanes, delays=d.tolist(), caps=rnd.choice([4, 8, 16]), inw=inw, warm=warm,
                   cls=rnd.choice(['WaveSim', 'WaveSimCuda']), wreuse=rnd.random() < 0.5, wstrip=wstrip, lreuse=rnd.random() < 0.5, lstrip=rnd.random() < 0.5)
-        mt['desc'] = '%s wave(reuse=%s strip=%s) logic(reuse=%s strip=%s) caps=%s' % (mt['cls'], mt['wreuse'], mt['wstrip'], mt['lreuse'], mt['lstrip'], mt['caps'])
+        mt['desc'] = '%s wave(reuse=%s strip=%s) logic(reuse=%s strip=%s) caps=%s T=%s' % (mt['cls'], mt['wreuse'], mt['wstrip'], mt['lreuse'], mt['lstrip'], mt['caps'], T)
         recs.append(build(mt))
         metas.append(mt)
     return recs, metas
